@@ -64,6 +64,7 @@ class Registry:
     entries: List[Any] = field(default_factory=list)  # FuncInfo or ("unresolved", src)
     register_fn: Optional[str] = None
     sites: List[Tuple[str, int]] = field(default_factory=list)  # (module, lineno)
+    extra: List[Any] = field(default_factory=list)  # registered at run time from other modules (examples, tests)
 
 
 _NO = object()
@@ -394,9 +395,37 @@ class Program:
                         idx_val = len(reg.entries) - 1
                     else:
                         reg.sites.append((m.name, st.lineno))
+                        reg.extra.append(ent)
                 if target is not None and idx_val is not None and m.name == regf.module:
                     # value of e.g. ALG_AND; a name assigned twice keeps its last value
                     m.consts[target] = idx_val
+
+        # 4. registrations performed anywhere else (inside `if __name__ == ...`, functions, tests)
+        top_level_calls = set()
+        for m in self.modules.values():
+            for st in m.tree.body:
+                if isinstance(st, (ast.Assign, ast.Expr)) and isinstance(getattr(st, "value", None), ast.Call):
+                    top_level_calls.add(id(st.value))
+        for m in self.modules.values():
+            for n in ast.walk(m.tree):
+                if not (isinstance(n, ast.Call) and isinstance(n.func, ast.Name)) or id(n) in top_level_calls:
+                    continue
+                r = self.resolve(m.name, n.func.id)
+                if not r or r[0] != "func" or (r[1].module, r[1].name) not in self.register_fns:
+                    continue
+                regf = r[1]
+                for lst, param in regf._reg_appends:  # type: ignore[attr-defined]
+                    pos = regf.params.index(param)
+                    arg = n.args[pos] if pos < len(n.args) else None
+                    ent: Any = ("unresolved", ast.unparse(arg) if arg is not None else "?")
+                    if isinstance(arg, ast.Name):
+                        rr = self.resolve(m.name, arg.id)
+                        if rr and rr[0] == "func":
+                            ent = rr[1]
+                    reg = self.registries[(regf.module, lst)]
+                    reg.sites.append((m.name, n.lineno))
+                    if ent not in reg.extra:
+                        reg.extra.append(ent)
 
     def registry(self, list_name: str) -> Registry:
         hits = [r for (mod, nm), r in self.registries.items() if nm == list_name]
